@@ -49,6 +49,17 @@ def pytest_configure(config):
     if not SPOOL:
         return
     os.makedirs(SPOOL, exist_ok=True)
+    if os.environ.get('VERIF_SUITE_FREEZE'):
+        # twin runs of the suite must see the same clock, uuids and random numbers
+        from harness import env
+        env.install(0)
+    if os.environ.get('VERIF_SUITE_ALWAYS_CONSISTENT'):
+        # the same tests on objects that keep their metadata consistent after every call
+        orig_init = pycdlib.PyCdlib.__init__
+
+        def init(self, always_consistent=False):
+            orig_init(self, always_consistent=True)
+        pycdlib.PyCdlib.__init__ = init
     orig_write_fp = pycdlib.PyCdlib.write_fp
     orig_write = pycdlib.PyCdlib.write
 
@@ -80,3 +91,6 @@ def pytest_configure(config):
 
 def pytest_runtest_setup(item):
     _current[0] = item.nodeid
+    if os.environ.get('VERIF_SUITE_FREEZE'):
+        from harness import env
+        env.reset(0)
